@@ -39,6 +39,32 @@ Definition interp (ks : list knot) (x : Q) : Q :=
   | [] => 0
   end.
 
+(* FluidPropertyInterExtra._antiderivative (H-model of the array code):
+     cum[i] = sum_{j<i} (y_{j+1} + y_j)/2 (x_{j+1} - x_j)
+     i      = clip(searchsorted(x, arg, side="right") - 1, 0, n-2)     (segment with x_i <= arg < x_{i+1})
+     F(arg) = cum[i] + (g(arg) + y_i)/2 (arg - x_i)        g = prop_getter *)
+Fixpoint antideriv_from (acc : Q) (p0 p1 : knot) (rest : list knot) (g : Q -> Q) (x : Q) : Q :=
+  match rest with
+  | [] => acc + (g x + snd p0) / 2 * (x - fst p0)
+  | p2 :: r => if Qlt_bool x (fst p1) then acc + (g x + snd p0) / 2 * (x - fst p0)
+               else antideriv_from (acc + (snd p1 + snd p0) / 2 * (fst p1 - fst p0)) p1 p2 r g x
+  end.
+
+Definition antideriv (ks : list knot) (g : Q -> Q) (x : Q) : Q :=
+  match ks with
+  | p0 :: p1 :: r => antideriv_from 0 p0 p1 r g x
+  | _ => 0
+  end.
+
+(* specification side: sum of the trapezoids over a knot list *)
+Fixpoint trapz_from (p0 : knot) (l : list knot) : Q :=
+  match l with
+  | [] => 0
+  | p1 :: r => (snd p1 + snd p0) / 2 * (fst p1 - fst p0) + trapz_from p1 r
+  end.
+Definition cum_before (pre : list knot) (p : knot) : Q :=
+  match pre ++ [p] with a :: r => trapz_from a r | [] => 0 end.
+
 Fixpoint increasing_from (x0 : Q) (ks : list knot) : bool :=
   match ks with
   | [] => true
